@@ -71,7 +71,7 @@ class StmtMixin:
         return m(st, s)
 
     def region_of(self, s):
-        if not self.reg.regions or not isinstance(s, (ast.If, ast.For, ast.While, ast.Try)):
+        if not self.reg.regions or not isinstance(s, (ast.If, ast.For, ast.While, ast.Try, ast.Assign)):
             return None
         fi = st_fi = None
         key = self.region_index.get(id(s))
